@@ -1,7 +1,7 @@
 """A pool subclass whose annotations are real objects (this module deliberately has no
 `from __future__ import annotations`), so that the control parser sees types and the library's own
 type aliases instead of strings (`_get_type_from_annotation` recognises the aliases by identity)."""
-from typing import Iterable
+from typing import Iterable, Optional
 
 from asyncio_taskpool.internals.types import AnyCoroutineFunc, ArgsT, EndCB, KwArgsT
 
@@ -19,6 +19,30 @@ def make(TaskPool):
         def call_me(self, func: AnyCoroutineFunc, end_callback: EndCB = None) -> str:   # noqa: RUF013
             """The library's callable aliases: converted as dotted paths."""
             return f"call_me {getattr(func, '__name__', func)!r} {getattr(end_callback, '__name__', end_callback)!r}"
+
+        def maybe(self, n: int | None = None, ratio: Optional[float] = None, tag: "str | None" = None,
+                  end_callback: Optional[EndCB] = None, args: Optional[ArgsT] = None) -> str:
+            """Evaluated Optional[X] / X | None annotations (defect D14): converted like X."""
+            return f"maybe {n!r} {ratio!r} {tag!r} {getattr(end_callback, '__name__', end_callback)!r} {args!r}"
+
+        def half(self, n: int = 1) -> str:
+            """Runs at 50% of the speed - a percent sign in a docstring (defect D13), also %s and %(x)d."""
+            return f"half {n!r}"
+
+        @property
+        def load(self) -> int:
+            """The load in %."""
+            return 7
+
+        @property
+        def share(self) -> int:
+            """The share in % (getter)."""
+            return getattr(self, "_share", 1)
+
+        @share.setter
+        def share(self, value: int) -> None:
+            """Sets the share in %."""
+            self._share = value
 
         @property
         def level(self) -> int:
